@@ -59,6 +59,7 @@ struct FnSpec {
     closure_heads: BTreeMap<usize, String>,
     closures: BTreeMap<usize, Vec<Clause>>,
     proofs: Vec<(String, Clause)>, // anchor, clause (text is the block)
+    nested: BTreeMap<String, Vec<Clause>>, // contracts of nested fn items
     line: usize,
 }
 
@@ -101,7 +102,7 @@ fn type_name(t: &syn::Type) -> String {
 }
 
 enum Found<'a> {
-    Fn { attrs: &'a [syn::Attribute], vis_start: usize, sig: &'a syn::Signature, block: &'a syn::Block, span: (usize, usize) },
+    Fn { attrs: &'a [syn::Attribute], vis: &'a syn::Visibility, vis_start: usize, sig: &'a syn::Signature, block: &'a syn::Block, span: (usize, usize) },
     Item(&'a syn::Item),
 }
 
@@ -133,7 +134,7 @@ fn find<'a>(ast: &'a syn::File, path: &str) -> R<Found<'a>> {
                                 syn::Visibility::Inherited => br(f.sig.span()).0,
                                 v => br(v.span()).0,
                             };
-                            return Ok(Found::Fn { attrs: &f.attrs, vis_start: vs, sig: &f.sig, block: &f.block, span: sp });
+                            return Ok(Found::Fn { attrs: &f.attrs, vis: &f.vis, vis_start: vs, sig: &f.sig, block: &f.block, span: sp });
                         }
                     }
                 }
@@ -166,7 +167,7 @@ fn find<'a>(ast: &'a syn::File, path: &str) -> R<Found<'a>> {
                     syn::Visibility::Inherited => br(f.sig.span()).0,
                     v => br(v.span()).0,
                 };
-                return Ok(Found::Fn { attrs: &f.attrs, vis_start: vs, sig: &f.sig, block: &f.block, span: sp });
+                return Ok(Found::Fn { attrs: &f.attrs, vis: &f.vis, vis_start: vs, sig: &f.sig, block: &f.block, span: sp });
             }
             syn::Item::Const(c) if c.ident == name => return Ok(Found::Item(it)),
             syn::Item::Struct(c) if c.ident == name => return Ok(Found::Item(it)),
@@ -177,6 +178,15 @@ fn find<'a>(ast: &'a syn::File, path: &str) -> R<Found<'a>> {
         }
     }
     fail(format!("anchor lost: item {path} not found"))
+}
+
+/// E14: `pub(crate)` / `pub(super)` become `pub` (Verus wants `pub` on items its public specs mention)
+fn vis_edit(v: &syn::Visibility, edits: &mut Vec<Edit>, seq: &mut usize) {
+    if let syn::Visibility::Restricted(r) = v {
+        let (a, b) = br(r.span());
+        *seq += 1;
+        edits.push(Edit { start: a, end: b, text: "pub".into(), rule: "E14".into(), seq: *seq, marks: vec![] });
+    }
 }
 
 const KEEP_DERIVES: &[&str] = &["Clone", "Copy", "PartialEq", "Eq", "Hash", "PartialOrd", "Ord"];
@@ -338,8 +348,9 @@ impl<'a, 'ast> Visit<'ast> for BodyV<'a> {
     fn visit_expr_try(&mut self, t: &'ast syn::ExprTry) {
         let (es, _ee) = br(t.expr.span());
         let (qs, qe) = br(t.question_token.span());
-        self.push(es, es, "verif_try!(", "E3");
-        self.push(qs, qe, ")", "E3");
+        // E3: Rust's definition of `?` on Result, spelled out (a macro would hide Verus closure syntax from verus!)
+        self.push(es, es, "(match ", "E3");
+        self.push(qs, qe, " { Ok(verif_v) => verif_v, Err(verif_e) => return Err(verif_from(verif_e)) })", "E3");
         syn::visit::visit_expr_try(self, t);
     }
     fn visit_expr_method_call(&mut self, c: &'ast syn::ExprMethodCall) {
@@ -507,13 +518,14 @@ fn gen_fn(ctx: &mut Ctx, fs_: &FnSpec) -> R<()> {
     ctx.src(&srcfile)?;
     let srcs = &ctx.srcs[&srcfile];
     let text = &srcs.text;
-    let (attrs, vis_start, sig, block, span) = match find(&srcs.ast, &fs_.path)? {
-        Found::Fn { attrs, vis_start, sig, block, span } => (attrs, vis_start, sig, block, span),
+    let (attrs, vis, vis_start, sig, block, span) = match find(&srcs.ast, &fs_.path)? {
+        Found::Fn { attrs, vis, vis_start, sig, block, span } => (attrs, vis, vis_start, sig, block, span),
         _ => return fail(format!("{} is not a function", fs_.path)),
     };
     let _ = vis_start;
     let mut v = BodyV { src: text, edits: vec![], seq: 0, loops: vec![], closures: vec![], stmt_stack: vec![], calls: vec![], breaks: vec![], returns: vec![], fresh: vec![], strlits: vec![], errs: vec![] };
     attr_edits(attrs, &mut v.edits, &mut v.seq, text);
+    vis_edit(vis, &mut v.edits, &mut v.seq);
     v.visit_block(block);
     if !v.errs.is_empty() {
         return fail(v.errs.join("; "));
@@ -628,7 +640,7 @@ fn gen_fn(ctx: &mut Ctx, fs_: &FnSpec) -> R<()> {
         v.push(re, re, ", txn: &mut Box<dyn StorageTxn + '_>", "E9");
         rules.push("E9".into());
         let stmt_text = &text[st.0..st.1];
-        let stmt_e3 = stmt_text.replacen("self.storage.txn(", "verif_try!(self.storage.txn(", 1).replacen(")?;", "));", 1);
+        let stmt_e3 = stmt_text.replacen("self.storage.txn(", "(match self.storage.txn(", 1).replacen(")?;", ") { Ok(verif_v) => verif_v, Err(verif_e) => return Err(verif_from(verif_e)) });", 1);
         twin = Some(format!(
             "    // E9 twin: exactly the first statement of {p} (`{orig}`), then hand the transaction out\n    fn {name}__open(&self, {argname}: Uuid) -> (r: Result<Box<dyn StorageTxn + '_>, ServerError>)\n        requires\n            self.can_open(),\n        ensures\n            r is Ok ==> open_post(r->Ok_0@, {argname}),\n    {{\n        {stmt}\n        Ok(txn)\n    }}\n",
             p = fs_.path,
@@ -751,6 +763,44 @@ fn gen_fn(ctx: &mut Ctx, fs_: &FnSpec) -> R<()> {
         v.edits.push(Edit { start: o1, end: bs, text: s, rule: "E8".into(), seq, marks });
         if !rules.contains(&"E8".to_string()) {
             rules.push("E8".into());
+        }
+    }
+    // nested fn items: name the return value `o` and splice their ensures (E2)
+    for (name, cls) in &fs_.nested {
+        let mut found = false;
+        for st in &block.stmts {
+            if let syn::Stmt::Item(syn::Item::Fn(nf)) = st {
+                if nf.sig.ident == name {
+                    found = true;
+                    if let syn::ReturnType::Type(_, ty) = &nf.sig.output {
+                        let (ts, te) = br(ty.span());
+                        v.push(ts, ts, "(o: ", "E2");
+                        v.push(te, te, ")", "E2");
+                    }
+                    let (nbo, _) = br(nf.block.brace_token.span.open());
+                    let mut marks = vec![];
+                    let mut s = String::new();
+                    let base_idx = all_clauses.len();
+                    for c in cls {
+                        let mut c2 = c.clone();
+                        c2.text = fix(&c.text);
+                        c2.place = format!("nested fn {name}");
+                        all_clauses.push(c2);
+                    }
+                    for (kw, kind) in [("requires", "nested_requires"), ("ensures", "nested_ensures")] {
+                        let sel: Vec<(usize, &Clause)> = all_clauses.iter().enumerate().skip(base_idx).filter(|(_, c)| c.kind == kind).collect();
+                        let l = s.len();
+                        s.push_str(&render_clauses(kw, &sel, "            ", &mut marks, l));
+                    }
+                    s.push_str("        ");
+                    v.seq += 1;
+                    let seq = v.seq;
+                    v.edits.push(Edit { start: nbo, end: nbo, text: s, rule: "E2".into(), seq, marks });
+                }
+            }
+        }
+        if !found {
+            return fail(format!("anchor lost: {} has no nested fn {name}", fs_.path));
         }
     }
     // E10 fresh ids
@@ -891,8 +941,10 @@ fn gen_item(ctx: &mut Ctx, file: &str, path: &str, opts: &[String], extra: &[Cla
     match it {
         syn::Item::Struct(s) => {
             attr_edits(&s.attrs, &mut edits, &mut seq, text);
+            vis_edit(&s.vis, &mut edits, &mut seq);
             for f in &s.fields {
                 attr_edits(&f.attrs, &mut edits, &mut seq, text);
+                vis_edit(&f.vis, &mut edits, &mut seq);
             }
             // E11 retype: `retype:<field>:<NewType>` ; `nogenerics`
             for o in opts {
@@ -942,6 +994,7 @@ fn gen_item(ctx: &mut Ctx, file: &str, path: &str, opts: &[String], extra: &[Cla
         }
         syn::Item::Const(c) => {
             attr_edits(&c.attrs, &mut edits, &mut seq, text);
+            vis_edit(&c.vis, &mut edits, &mut seq);
             // `&str` consts get 'static
             if let syn::Type::Reference(r) = &*c.ty {
                 if r.lifetime.is_none() {
@@ -981,8 +1034,10 @@ fn gen_item(ctx: &mut Ctx, file: &str, path: &str, opts: &[String], extra: &[Cla
         syn::Item::Trait(_) => return fail("traits are written in the contract file, not extracted"),
         _ => return fail(format!("unsupported item kind for {path}")),
     }
-    if !edits.is_empty() && !rules.contains(&"E6".to_string()) && edits.iter().any(|e| e.rule == "E6") {
-        rules.push("E6".into());
+    for r in ["E6", "E14"] {
+        if !rules.contains(&r.to_string()) && edits.iter().any(|e| e.rule == r) {
+            rules.push(r.into());
+        }
     }
     let gen_base = ctx.out.len();
     let (body, segs, marks) = apply_edits(text, span, &mut edits, gen_base)?;
@@ -1084,6 +1139,7 @@ fn run() -> R<()> {
                         Closure(usize, usize),
                         ClosureHead(usize),
                         Proof(usize),
+                        Nested(String, usize),
                         Sig,
                     }
                     let mut cur = Cur::None;
@@ -1157,6 +1213,18 @@ fn run() -> R<()> {
                                         cur = Cur::Closure(k, v.len() - 1);
                                     }
                                 }
+                                "nested" => {
+                                    // nested <fn-name> ensures [id tags] expr   (return value is named `o`)
+                                    let mut it = rest.split_whitespace();
+                                    let name = it.next().ok_or(Fail(format!("bad nested clause at line {}", i + 1)))?.to_string();
+                                    let kind0 = it.next().ok_or(Fail(format!("bad nested clause at line {}", i + 1)))?;
+                                    let after = rest.trim_start();
+                                    let after = after[after.find(kind0).unwrap() + kind0.len()..].to_string();
+                                    let (id, tags, text) = parse_clause_head(&after);
+                                    let v = f.nested.entry(name.clone()).or_default();
+                                    v.push(Clause { kind: format!("nested_{kind0}"), id, tags, text, place: String::new() });
+                                    cur = Cur::Nested(name, v.len() - 1);
+                                }
                                 "proof" | "ghost" => {
                                     // proof <anchor...> [id tags] {   (ghost: the block's statements are inserted bare, e.g. `let ghost x = y;`)
                                     let (anchor, after) = match rest.find('[') {
@@ -1185,12 +1253,13 @@ fn run() -> R<()> {
                                 s.push('\n');
                                 s.push_str(ln);
                             };
-                            match cur {
-                                Cur::Fn(k) => add(&mut f.clauses[k].text),
-                                Cur::Loop(k, j) => add(&mut f.loops.get_mut(&k).unwrap()[j].text),
-                                Cur::Closure(k, j) => add(&mut f.closures.get_mut(&k).unwrap()[j].text),
-                                Cur::ClosureHead(k) => add(f.closure_heads.get_mut(&k).unwrap()),
-                                Cur::Proof(p) => add(&mut f.proofs[p].1.text),
+                            match &cur {
+                                Cur::Fn(k) => add(&mut f.clauses[*k].text),
+                                Cur::Loop(k, j) => add(&mut f.loops.get_mut(k).unwrap()[*j].text),
+                                Cur::Closure(k, j) => add(&mut f.closures.get_mut(k).unwrap()[*j].text),
+                                Cur::ClosureHead(k) => add(f.closure_heads.get_mut(k).unwrap()),
+                                Cur::Proof(p) => add(&mut f.proofs[*p].1.text),
+                                Cur::Nested(n, j) => add(&mut f.nested.get_mut(n).unwrap()[*j].text),
                                 Cur::Sig => add(f.sig.as_mut().unwrap()),
                                 Cur::None => {
                                     if !ln.trim().is_empty() {
